@@ -164,11 +164,13 @@ struct String {
     inline bool operator==(const Char_T *str) const noexcept {
         SizeT offset{0};
 
-        if (str != nullptr) {
-            while ((*str != Char_T{0}) && (*str == First()[offset])) {
-                ++str;
-                ++offset;
-            }
+        if (str == nullptr) {
+            return (Length() == 0);
+        }
+
+        while ((offset < Length()) && (*str != Char_T{0}) && (*str == First()[offset])) {
+            ++str;
+            ++offset;
         }
 
         return ((*str == Char_T{0}) && (Length() == offset));
@@ -275,7 +277,7 @@ struct String {
     }
 
     inline void StepBack(const SizeT len) noexcept {
-        if (len <= Length()) {
+        if ((len <= Length()) && (Storage() != nullptr)) {
             Char_T     *str     = Storage();
             const SizeT new_len = (Length() - len);
 
